@@ -527,10 +527,9 @@ func handleZINTERSTORE(params internal.HandlerFuncParams) ([]byte, error) {
 	keyExists := params.KeysExist(params.Context, k.ReadKeys)
 	destination := k.WriteKeys[0]
 
-	// Remove the destination keys from the command before parsing it
-	cmd := slices.DeleteFunc(params.Command, func(s string) bool {
-		return s == destination
-	})
+	// Remove the destination key (the first argument only: it may also be one of the source keys)
+	// from a copy of the command before parsing it.
+	cmd := append([]string{params.Command[0]}, params.Command[2:]...)
 
 	keys, weights, aggregate, _, err := extractKeysWeightsAggregateWithScores(cmd)
 	if err != nil {
@@ -1342,10 +1341,9 @@ func handleZUNIONSTORE(params internal.HandlerFuncParams) ([]byte, error) {
 
 	destination := k.WriteKeys[0]
 
-	// Remove destination key from list of keys
-	params.Command = slices.DeleteFunc(params.Command, func(s string) bool {
-		return s == destination
-	})
+	// Remove the destination key (the first argument only: it may also be one of the source keys)
+	// from a copy of the command before parsing it.
+	params.Command = append([]string{params.Command[0]}, params.Command[2:]...)
 
 	keys, weights, aggregate, _, err := extractKeysWeightsAggregateWithScores(params.Command)
 	if err != nil {
